@@ -545,6 +545,13 @@ fn run_c16_vectors(rep: &mut Rep, n: usize, seed: u64) {
     m!("Vec<u16> (empty, capacity)", 1, || Vec::<u16>::with_capacity(n + 3));
     m!("Box<[u32]>", 1, || (0..n as u32).collect::<Vec<u32>>().into_boxed_slice());
     m!("Box<[u128]>", 1, || (0..n as u128).collect::<Vec<u128>>().into_boxed_slice());
+    // boxed slices whose elements own heap memory themselves (the recommended way to index a very long
+    // sequence is a vector of RSQVectors)
+    let chunk = (n / 4).max(1);
+    m!("Box<[BitVector]>", 5, || bits.chunks(chunk).map(|c| c.iter().copied().collect::<BitVector>()).collect::<Vec<_>>().into_boxed_slice());
+    m!("Box<[RSQVector256]>", 40, || quads.chunks(chunk).map(|c| qwt::RSQVector256::new(c)).collect::<Vec<_>>().into_boxed_slice());
+    m!("Box<[RSWide]>", 20, || bits.chunks(chunk).map(|c| qwt::RSWide::new(c.iter().copied().collect())).collect::<Vec<_>>().into_boxed_slice());
+    m!("Box<[Box<[u64]>]>", 5, || (0..4).map(|k| (0..(n / 8 + k) as u64).collect::<Vec<u64>>().into_boxed_slice()).collect::<Vec<_>>().into_boxed_slice());
     m!("u64", 0, || 7u64);
     m!("u128", 0, || 7u128);
     m!("bool", 0, || true);
